@@ -444,6 +444,18 @@ def f4_registration(ctx) -> None:
         ctx.ok("F4", "a child is registered only while its value is finite")
     else:
         ctx.violation("F4", u, f"registration in _rules_using_class[{ch}] must be under `self._function[{ch}] is not None`")
+    # ... and under nothing else: every position whose child is finite is registered, the rule's own
+    # parent among its children included (1 -> (0, 1): the shift at the second position moves when f(1) does)
+    other = [t for t, _p in C.flatten_guards(C.guards(f, u, within=lp)) if f"self._function[{ch}]" not in norm(D.expanded(f, t))]
+    skips = [x for x in walk_local(lp) if isinstance(x, (ast.Continue, ast.Break)) and x is not lp
+             and not any(f"self._function[{ch}]" in norm(D.expanded(f, t)) for t, _p in C.flatten_guards(C.guards(f, x, within=lp)))]
+    if other or skips:
+        bad = other[0] if other else skips[0]
+        ctx.violation("F4", bad, f"a child position can be left out of _rules_using_class[{ch}] for a reason other than `self._function[{ch}] is None` "
+                      f"(`{norm(other[0])[:50] if other else 'continue / break'}`): its shift is never corrected when f({ch}) moves, so the rule fires once too often or stalls "
+                      "-- a rule with its own parent among its children (1 -> (0, 1)) stops pumping")
+    else:
+        ctx.ok("F4", "every finite child position is registered (no other reason to skip one)")
     if _finite_guarded(f, lp, [f"self._function[{key}.parent]"]):
         ctx.ok("F4", "children are registered only for a rule whose parent is finite")
     else:
